@@ -254,10 +254,12 @@ class C03(SolverSuite):
         N = rng.choice([1, 1, 2, 3])
         lo, up = objectives.gen_box(rng, N)
         return {"property": self.prop, "suite": "liveness", "format": 1, "run_seed": run_seed, "N": N, "lower": lo, "upper": up,
-                "objective": objectives.gen_spec(rng, N, lo, up), "scale": rng.choice([1e150, 1e154, 1e155, 1e160, 1e200, 1e300, -1e160, 1e307]),
+                "objective": objectives.gen_spec(rng, N, lo, up), "scale": rng.choice([1e150, 1e154, 1e155, 1e160, 1e200, 1e300, -1e160, 1e307, 1.0, 1.0]),
                 "offset": rng.choice([0.0, 1.0, -3.0]), "value_type": rng.choice([None, None, "np.float64"]),
                 "params": {"r": G.gen_r(rng), "eps": G.gen_eps(rng, N), "itersLimit": rng.randint(2, 60), "refineSolution": False},
-                "pre": rng.choice([0, 0, rng.randint(1, 5)]), "wall_s": 6}
+                "pre": rng.choice([0, 0, rng.randint(1, 5)]), "wall_s": 6,
+                # a barrier objective: beyond the level of its first evaluation it answers with a non-finite number
+                "barrier": rng.choice([None, None, None, "inf", "inf", "-inf", "nan"])}
 
     def check_liveness(self, plan):
         import signal
@@ -269,6 +271,7 @@ class C03(SolverSuite):
         f = objectives.build(plan["objective"])
         k, c, vt = float(plan["scale"]), float(plan["offset"]), plan.get("value_type")
         calls = []
+        level = []
 
         class P(Problem):
             def __init__(self):
@@ -284,6 +287,10 @@ class C03(SolverSuite):
             def Calculate(self, point, functionValue):
                 y = [float(v) for v in point.floatVariables]
                 v = k * (f(y) + c)
+                if plan.get("barrier") and calls and f(y) > level[0]:
+                    v = float(plan["barrier"])
+                elif not calls:
+                    level.append(f(y))
                 calls.append((tuple(y), v))
                 functionValue.value = np.float64(v) if vt == "np.float64" else v
                 return functionValue
@@ -312,16 +319,17 @@ class C03(SolverSuite):
             signal.setitimer(signal.ITIMER_REAL, 0.0)
             signal.signal(signal.SIGALRM, old)
         if fired:
-            rep.violations.append(core.Violation(self.prop, "no_termination", "objective values of magnitude %g: Solve was still running after %s s "
+            rep.violations.append(core.Violation(self.prop, "no_termination", "objective values of magnitude %g%s: Solve was still running after %s s "
                                                  "of wall time with %d evaluations made (itersLimit=%d); it only came back because the watchdog "
-                                                 "interrupted it" % (abs(k), plan["wall_s"], fired[0], pr["itersLimit"]), "Solve"))
+                                                 "interrupted it" % (abs(k), " with a %s barrier" % plan["barrier"] if plan.get("barrier") else "",
+                                                                     plan["wall_s"], fired[0], pr["itersLimit"]), "Solve"))
         elif len(calls) > max(pr["itersLimit"], int(plan.get("pre") or 0)) + 1:
             rep.violations.append(core.Violation(self.prop, "budget", "objective values of magnitude %g: %d evaluations, itersLimit=%d"
                                                  % (abs(k), len(calls), pr["itersLimit"]), "Solve"))
         rep.probes["liveness_runs_on_huge_values"] += 1
         rep.probes["liveness_runs_where_dogloballteration_refused"] += int(raised is not None)
         rep.n_ops = 2
-        rep.digest = core.short_hash([(y, core.fhex(v)) for y, v in calls] + [bool(fired)])
+        rep.digest = core.short_hash([(y, repr(v)) for y, v in calls] + [bool(fired)])
         rep.sig = rep.digest
         rep.nontrivial = rep.digest if len(calls) >= 2 else None
         return rep
